@@ -1148,4 +1148,23 @@ pub mod verif_hooks {
     pub fn pack_size(config: &ConfigFile, blob_type: BlobType, current_size: u64) -> u32 {
         PackSizer::from_config(config, blob_type, current_size).pack_size()
     }
+
+    /// Build a `PackSizer` from explicit field values (its fields are private).
+    pub fn pack_sizer(
+        default_size: u32,
+        grow_factor: u32,
+        size_limit: u32,
+        current_size: u64,
+        min_packsize_tolerate_percent: u32,
+        max_packsize_tolerate_percent: u32,
+    ) -> PackSizer {
+        PackSizer {
+            default_size,
+            grow_factor,
+            size_limit,
+            current_size,
+            min_packsize_tolerate_percent,
+            max_packsize_tolerate_percent,
+        }
+    }
 }
